@@ -702,8 +702,9 @@ type C01 struct{}
 
 func (C01) Meta() core.Meta {
 	return core.Meta{
-		Property: "C01",
-		Level:    "exploration",
+		Property:   "C01",
+		Level:      "exploration",
+		NonVacuous: []string{"stream_read_under_two_chunk_schedules", "unknown_qualifier_learned_in_multi_record_process", "foreign_layout_records_read", "reader_and_writer_in_one_process"},
 		Rule: "Each simulated run draws a stream of 1-4 records from its seed: API-built GenBank records from a generator over the writable domain (all header fields " +
 			"present/absent, valid calendar dates, 0-4 features with every location kind, quoted/literal/toggle/multi-line/repeated/unknown-name qualifiers, lengths sweeping " +
 			"mod 10 and mod 60, CONTIG with and without ORIGIN), corpus records (which enter through gts's own reader in a process of their own), and either of those pushed " +
